@@ -115,7 +115,13 @@ fn positive_case(t: &mut Tape, rec: &mut Rec, recipients: &[Kind]) -> CaseResult
         // subkey locked, 3 only the primary key locked
         let lock_state = if z.secret.secret_subkeys.is_empty() { t.below(2) } else { [0, 1, 0, 1, 2, 3][t.below(6)] };
         let locked = lock_state == 1 || lock_state == 2;
+        // unprotected keys are also presented with a second encryption subkey in front of the addressed one
+        let two = lock_state == 0 && z.two_subkeys.is_some() && t.chance(90);
+        if two {
+            rec.label("present:target-subkey-is-not-the-first-subkey");
+        }
         let presented: &SignedSecretKey = match lock_state {
+            0 if two => z.two_subkeys.as_ref().expect("checked"),
             0 => &z.secret,
             1 => &z.locked,
             2 => &z.sub_locked,
